@@ -28,6 +28,11 @@
   * `LocalEnv.bindings` is a `HashMap`: the model keeps an association list with at most one entry
     per name; `merge` / `apply_child_scope` are written as maps over it (order-independent results).
 
+  One more annotation that is not part of the Rust `TypeState` (like the `oom` marker): `leaked`,
+  the names of variables that `apply_child_scope` dropped from the scope at the end of a block. At
+  run time they stay alive (`Block::resolve` does not remove them); nothing of the type inference
+  reads the annotation (it is used by the side conditions of the soundness theorem only).
+
   Panics of the kind operations (`-isize::MIN`, `D_remove_neg_underflow`) are compile-time panics of
   the real compiler (C04): `typeInfo` is total, keeps the kind and sets the `oom` marker.
   Function calls are outside this model: `typeInfo` sets `oom` for every tree containing a `call`.
@@ -55,6 +60,7 @@ structure TState where
   target : Kind
   metadata : Kind
   oom : Bool := false
+  leaked : List String := []    -- annotation: names dropped by `apply_child_scope` so far
 
 namespace TypeDef
 
@@ -122,6 +128,10 @@ def set (l : Locals) (n : String) (d : Details) : Locals := (n, d) :: l.filter (
 def applyChildScope (parent child : Locals) : Locals :=
   parent.map fun x => (x.1, (get child x.1).getD x.2)
 
+/-- the names of the child scope that `apply_child_scope` drops (not in the parent) -/
+def droppedNames (parent child : Locals) : List String :=
+  (child.filter fun x => (get parent x.1).isNone).map (·.1)
+
 /-- one variable of `self` in `LocalEnv::merge` -/
 def mergeEntry (other : Locals) (x : String × Details) : String × Details :=
   match get other x.1 with
@@ -151,7 +161,8 @@ def merge (a b : TState) : TState :=
   { locals := Locals.merge a.locals b.locals,
     target := a.target.union b.target,
     metadata := a.metadata.union b.metadata,
-    oom := a.oom || b.oom }
+    oom := a.oom || b.oom,
+    leaked := a.leaked ++ b.leaked }
 
 /-- `ExternalEnv::merge` alone (the locals of `a`) -/
 def mergeExternal (a b : TState) : TState :=
@@ -426,6 +437,11 @@ def delExternal (T : TState) (ext : Option (Bool × Path)) (compact : Option Boo
 def delFallible (hasCompact : Bool) (compactKind : Kind) : Bool :=
   hasCompact && !Kind.boolean.isSuperset compactKind
 
+/-- the state after a scoped block (`state.local = parent_locals.apply_child_scope(state.local)`) -/
+def scopedState (parent : Locals) (child : TState) : TState :=
+  { child with locals := Locals.applyChildScope parent child.locals,
+               leaked := child.leaked ++ Locals.droppedNames parent child.locals }
+
 /-- `Variable::type_info` -/
 def varDef (T : TState) (n : String) : TypeDef :=
   match T.getVar n with
@@ -451,7 +467,7 @@ mutual
     | .grp e, T => typeInfo e T
     | .blk es, T =>
       let a := typeSeq es T {}
-      (a.1.finish, { a.2 with locals := Locals.applyChildScope T.locals a.2.locals })
+      (a.1.finish, scopedState T.locals a.2)
     | .arr es, T =>
       let a := typeArr es T {}
       (a.1.finish, a.2)
@@ -461,9 +477,9 @@ mutual
     | .ifte pred thn hasElse els, T =>
       let p := typeSeq pred T {}
       let t := typeSeq thn p.2 {}
-      let ifT : TState := { t.2 with locals := Locals.applyChildScope p.2.locals t.2.locals }
+      let ifT : TState := scopedState p.2.locals t.2
       let e := typeSeq els p.2 {}
-      let elT : TState := { e.2 with locals := Locals.applyChildScope p.2.locals e.2.locals }
+      let elT : TState := scopedState p.2.locals e.2
       ifResult hasElse p.1.finish t.1.finish ifT e.1.finish elT p.2
     | .op o l r, T =>
       let a := typeInfo l T
